@@ -122,7 +122,7 @@ def yaml_inputs():
     return out
 
 
-def fix_cases(tier, rulesets_raw=("layout", "all"), rulesets_yaml=("all",), ops="WKME", group=16, yaml=True, raw=True, rulesets_fixtures=()):
+def fix_cases(tier, rulesets_raw=("layout", "all"), rulesets_yaml=("all",), ops="WKME", group=16, yaml=True, raw=True, rulesets_fixtures=(), rulesets_fixture_gaps=()):
     out = []
     # every dialect fixture up to the byte bound, fixed in its OWN dialect (dialect-specific token
     # shapes: hive `a.b-c=d`, soql `LAST_N_WEEKS:5`, tsql `[a b]`, ...)
@@ -131,6 +131,13 @@ def fix_cases(tier, rulesets_raw=("layout", "all"), rulesets_yaml=("all",), ops=
         for rs in rulesets_fixtures:
             for i in range(0, len(fx), 8):
                 out.append({"k": "fx", "rs": rs, "ids": [f[1] for f in fx[i : i + 8]]})
+    if rulesets_fixture_gaps:
+        # every small dialect fixture with an inline comment + newline inserted after EVERY token in turn
+        # (dialect-specific constructs next to a comment: MATERIALIZED CTEs, semi-structured paths, ...)
+        fx = corpus.fixtures(80 if tier == "quick" else 150)
+        for rs in rulesets_fixture_gaps:
+            for i in range(0, len(fx), 4):
+                out.append({"k": "fxk", "rs": rs, "ids": [f[1] for f in fx[i : i + 4]]})
     if raw:
         ss = raw_strings(tier, ops)
         for rs in rulesets_raw:
@@ -162,6 +169,30 @@ def expand(case):
         for p in case["ids"]:
             d, t = _FX[p]
             yield {"k": "fx", "rs": case["rs"], "ids": [p]}, sq.linter(d, "raw", rules=RULESETS[case["rs"]]), t
+    elif k == "fxk":
+        from sqlfluff.core import Lexer
+
+        if not _FX:
+            for d, p, t in corpus.fixtures(10**9):
+                _FX[p] = (d, t)
+        for p in case["ids"]:
+            d, t = _FX[p]
+            lnt = sq.linter(d, "raw", rules=RULESETS[case["rs"]])
+            try:
+                toks, _ = Lexer(config=lnt.config).lex(t)
+            except Exception:
+                continue
+            off, ends = 0, []
+            for x in toks:
+                if x.raw:
+                    off += len(x.raw)
+                    ends.append(off)
+            if off != len(t):
+                continue
+            for gi, e in enumerate(ends[:-1]):
+                if "gap" in case and case["gap"] != gi:
+                    continue
+                yield {"k": "fxk", "rs": case["rs"], "ids": [p], "gap": gi}, lnt, t[:e] + " -- c\n" + t[e:]
     elif k == "yaml":
         if not _Y:
             for y in yaml_inputs():
